@@ -169,6 +169,26 @@ def render_insert(p, int_vals=False):
     return {"a": "Insert", "p": p, "dims": KEYS[p["k"]], "vals": vals}
 
 
+BY_NAMES = ["*", "", "a", "b", "a,b"]
+
+
+def project_key(keystr, by):
+    """Projection of a canonical key string onto the dimension subset `by'."""
+    if by == "*":
+        return keystr
+    want = set(by.split(",")) if by else set()
+    parts = [p for p in keystr.split(",") if p and p.split("=")[0] in want]
+    return ",".join(parts)
+
+
+def gproj(tables):
+    keys = set()
+    for t in tables:
+        for k in KEYS:
+            keys.add(t.proj(k))
+    return {by: {k: project_key(k, by) for k in sorted(keys)} for by in BY_NAMES}
+
+
 def constants_module(name, extends, tables, extra=None):
     """TLA+ module `name' EXTENDS `extends' defining the c_* constant operators
     for the given tables (and extra definitions), plus the matching cfg lines."""
@@ -181,6 +201,8 @@ def constants_module(name, extends, tables, extra=None):
         "c_InitFlds": {t.name: t.flds() for t in tables},
         "c_Src": SRC,
     }
+    if extends.startswith("Trace"):
+        defs["c_GProj"] = RawTLA(tla_fn(gproj(tables)))
     if extra:
         defs.update(extra)
     lines = ["---- MODULE %s ----" % name, "EXTENDS %s" % extends]
@@ -195,3 +217,12 @@ def constants_module(name, extends, tables, extra=None):
 
 class RawTLA(str):
     pass
+
+
+def tla_fn(d):
+    """A (nested) dict with arbitrary string keys as a TLA+ function."""
+    if not isinstance(d, dict):
+        return tla(d)
+    if not d:
+        return "<<>>"
+    return "(" + " @@ ".join("%s :> %s" % (tla(k), tla_fn(v)) for k, v in d.items()) + ")"
